@@ -552,8 +552,8 @@ impl<T: PartialOrd + Copy> Interval<T> {
     {
         match self {
             Interval::TwoSided(low, high) => Interval::TwoSided(f_low(*low), f_high(*high)),
-            Interval::LowerOneSided(low) => Interval::UpperOneSided(f_low(*low)),
-            Interval::UpperOneSided(high) => Interval::LowerOneSided(f_high(*high)),
+            Interval::LowerOneSided(high) => Interval::LowerOneSided(f_high(*high)),
+            Interval::UpperOneSided(low) => Interval::UpperOneSided(f_low(*low)),
         }
     }
 
